@@ -700,7 +700,8 @@ impl Axecutor {
             if self.mem_init_zero(start, length).is_ok() {
                 break;
             }
-            start += length;
+            // Always make progress, even for a zero-length request
+            start += length.max(1);
         }
 
         Ok(start)
@@ -729,7 +730,8 @@ impl Axecutor {
             if res.is_ok() {
                 break;
             }
-            start += data.len() as u64;
+            // Always make progress, even for a zero-length request
+            start += (data.len() as u64).max(1);
         }
 
         Ok(start)
